@@ -254,9 +254,25 @@ def Pow(a, b):
     return V(ex.arith("**", unV(a), unV(b)))
 
 
+UF_IMPL = {}
+
+
+def register_uf_impl(name, fn):
+    UF_IMPL[name] = fn
+
+
+def Trunc(x):
+    """python int(x): truncation toward zero"""
+    ex, st = _cur()
+    from .intrinsics import _int
+    return V(_int(ex, st, [unV(x)], {}, None))
+
+
 def Uf(name, *args, sort="real"):
     """application of a named uninterpreted (ghost / library) function"""
     ex, _ = _cur()
+    if all(not is_sym(unV(a)) for a in args) and name in UF_IMPL:
+        return V(UF_IMPL[name](*[unV(a) for a in args]))
     targs = []
     sorts = []
     for a in args:
@@ -267,6 +283,46 @@ def Uf(name, *args, sort="real"):
     rs = {"real": z3.RealSort(), "int": z3.IntSort(), "bool": z3.BoolSort()}[sort]
     f = ex.ctx.uf(name, *sorts, rs)
     return V(f(*targs))
+
+
+def _is_concrete_seq(ex, st, x):
+    sq = ex.seq_of(st, x)
+    return sq.items is not None and all(not is_sym(v) for v in sq.items), sq
+
+
+def NpvLib(rate, seq):
+    """numpy_financial.npv(rate, seq): sum_t seq[t]/(1+rate)^t  (library meaning, A3)"""
+    ex, st = _cur()
+    s = seq.st if isinstance(seq, V) and seq.st is not None else st
+    conc, sq = _is_concrete_seq(ex, s, unV(seq))
+    rate = unV(rate)
+    if conc and not is_sym(rate):
+        import numpy_financial as npf
+        return V(float(npf.npv(rate, [float(v) for v in sq.items])))
+    from .intrinsics import npv_ghost
+    return V(npv_ghost(ex, st, rate, sq))
+
+
+def IrrLib(seq):
+    """numpy_financial.irr(seq) as (value, isnan) (library meaning, A3)"""
+    ex, st = _cur()
+    s = seq.st if isinstance(seq, V) and seq.st is not None else st
+    conc, sq = _is_concrete_seq(ex, s, unV(seq))
+    if conc:
+        import math
+        import numpy_financial as npf
+        r = float(npf.irr([float(v) for v in sq.items]))
+        return V(0.0 if math.isnan(r) else r), V(math.isnan(r))
+    from .intrinsics import irr_ghost
+    g = irr_ghost(ex, st, sq)
+    return V(g.value), V(g.isnan)
+
+
+def Concat(a, b):
+    ex, st = _cur()
+    sa = ex.seq_of(a.st if isinstance(a, V) and a.st is not None else st, unV(a))
+    sb = ex.seq_of(b.st if isinstance(b, V) and b.st is not None else st, unV(b))
+    return V(st.new_cell(ex.concat(sa.with_kind("list"), sb.with_kind("list"))))
 
 
 def eval_clauses(ex, st, fn, pre_state, i, W) -> dict:
